@@ -410,3 +410,319 @@ RULES = [
     ("C08.POSTFAIL", "quick", rule_postfail),
     ("C08.CONSUME", "quick", rule_consume_c08),
 ]
+
+
+# ----------------------------------------------------------------- NULLFIELD
+RECEIVED = {"server": {"clientHello"},
+            "client": {"serverHello", "hello_retry", "encrypted_extensions", "certificate_request",
+                       "certificateRequest", "cert_request"}}
+
+
+def _nullable_fields(ctx):
+    """extension class name -> set of payload fields that parse() may leave None."""
+    mod = ctx.index.module("extensions")
+    out = {}
+    generic = {"VarBytesExtension", "ListExtension", "VarListExtension", "VarSeqListExtension", "IntExtension",
+               "CustomNameExtension"}
+    for cname, ci in mod.classes.items():
+        fields = set()
+        bases = {b.name for b in ci.mro()[1:]}
+        init = ci.methods.get("__init__")
+        if bases & generic and init is not None:
+            for c in calls_in(init.node):
+                if call_name(c) == "__init__":
+                    for a in list(c.args) + [k.value for k in c.keywords]:
+                        if isinstance(a, ast.Constant) and isinstance(a.value, str) and a.value.isidentifier():
+                            fields.add(a.value)
+        parse = ci.methods.get("parse")
+        if parse is not None and init is not None:
+            none_init = set()
+            for s in own_nodes(init.node):
+                if isinstance(s, ast.Assign) and isinstance(s.value, ast.Constant) and s.value.value is None:
+                    for t in s.targets:
+                        c = attr_chain(t)
+                        if c and c.startswith("self."):
+                            none_init.add(c[5:])
+            g = ctx.an.cfg(parse)
+            for a in none_init:
+                setters = [n for n in g.nodes if n.kind == "stmt" and isinstance(n.ast, (ast.Assign, ast.AugAssign))
+                           and any(attr_chain(t) == "self." + a for t in (
+                               n.ast.targets if isinstance(n.ast, ast.Assign) else [n.ast.target]))
+                           and not (isinstance(n.ast, ast.Assign) and isinstance(n.ast.value, ast.Constant)
+                                    and n.ast.value.value is None)]
+                seen = g.reach([g.entry], blocked=setters, follow_exc=False)
+                if g.exit.id in seen:
+                    fields.add(a)
+        if fields:
+            out[cname] = fields
+    return out
+
+
+def _ext_class_for(ctx, regs, typ, server_msg):
+    order = (["_serverExtensions", "_hrrExtensions"] if server_msg else []) + ["_universalExtensions"]
+    for r in order:
+        for k, v, ln in regs.get(r, []):
+            if k == typ:
+                return v
+    return None
+
+
+PRODUCERS = {"server": ("_serverGetClientHello", "client_hello", "clientHello"),
+             "client": ("_clientGetServerHello", "server_hello", "serverHello")}
+# extension types whose object is replaced after the sanity checks (second ClientHello after a
+# HelloRetryRequest): facts about them do not carry over to the functions that run later
+REPLACED_AFTER_HRR = {"ExtensionType.key_share", "ExtensionType.pre_shared_key", "ExtensionType.cookie",
+                      "ExtensionType.client_hello_padding"}
+# uses whose safety comes from a path condition the rule cannot see; each entry: reason
+NULLFIELD_ASSUMED = {
+    ("_handshakeServerAsyncHelper", "ExtensionType.ec_point_formats", "formats"):
+        "runs only for version < (3, 4); _serverGetClientHello checks `not ecExt.formats` whenever the "
+        "negotiable version is <= (3, 3)",
+}
+
+
+def _ext_vars(fi, g, received):
+    """(msg, type) -> [(def node, var name)] for `v = msg.getExtension(ExtensionType.T)`."""
+    out = {}
+    for d in g.nodes:
+        if d.kind != "stmt" or not isinstance(d.ast, ast.Assign) or not isinstance(d.ast.value, ast.Call):
+            continue
+        call = d.ast.value
+        if call_name(call) != "getExtension" or not call.args:
+            continue
+        msg = attr_chain(call.func.value)
+        typ = attr_chain(call.args[0])
+        tgt = attr_chain(d.ast.targets[0])
+        if msg in received and typ and tgt and "." not in tgt:
+            out.setdefault((msg, typ), []).append((d, tgt))
+    return out
+
+
+def _cond_truthy_edges(g, v, f):
+    """edges on which `v present => v.f truthy` holds although v itself may be absent:
+    the false edge of `v and not v.f` / `v and v.f is None` (all conjuncts about v and v.f)."""
+    from ..query import falsy_when, truthy_when
+    chain = "%s.%s" % (v, f)
+    out = set()
+    for t in g.nodes:
+        if t.kind != "test" or not isinstance(t.expr, ast.BoolOp) or not isinstance(t.expr.op, ast.And):
+            continue
+        vals = t.expr.values
+        pres = [x for x in vals if v in truthy_when(x, True)]
+        nul = [x for x in vals if chain in falsy_when(x, True)]
+        if pres and nul and len(pres) + len(nul) == len(vals):
+            out.add((t.id, "F"))
+    return out
+
+
+def _established(ctx, role, nullable, regs, assume_tls13=False):
+    """(type, field) facts `extension present => field not None` that hold whenever the hello
+    producer of this role yields its result."""
+    from ..query import truthy_edges, falsy_edges
+    pname, hs, msgvar = PRODUCERS[role]
+    fi = ctx.index.func(TLSCONN + pname)
+    g = ctx.an.cfg(fi)
+    from .common import getmsg_nodes
+    gm = getmsg_nodes(g, hs_type=hs)
+    ys = [n for n in g.nodes if is_value_yield(n)]
+    if not gm or not ys:
+        raise AnalysisError("C08.NULLFIELD: producer %s anchors not found" % pname)
+    hrr = len(gm) > 1
+    facts = set()
+    ev_ = _ext_vars(fi, g, {msgvar} | ({"result"} if role == "client" else set()))
+    for (msg, typ), defs in ev_.items():
+        cname = _ext_class_for(ctx, regs, typ, server_msg=(role == "client"))
+        if cname is None or cname not in nullable:
+            continue
+        for f in nullable[cname]:
+            cut = set()
+            for d, v in defs:
+                cut |= truthy_edges(g, "%s.%s" % (v, f))
+                cut |= _cond_truthy_edges(g, v, f)
+                cut |= falsy_edges(g, v)
+            if assume_tls13:
+                for t in g.nodes:
+                    if t.kind == "test" and "(3, 4) in ver_ext.versions" in norm(t.expr):
+                        cut.add((t.id, "F"))
+            seen = g.reach(g.normal_succ(gm[0]), cut=cut)
+            ok = not any(y.id in seen for y in ys)
+            if ok and hrr and role == "server":
+                # second ClientHello: facts carry over through the effective `clientHello1 !=
+                # clientHello` gate (C04.HRR) except for extensions copied into the first hello
+                # before that comparison; those copies must be dominated by a fresh check
+                vs = {v for d, v in defs}
+                over = []
+                for n in g.nodes:
+                    if n.kind == "stmt" and isinstance(n.ast, ast.Assign) and n.id in g.reach(g.normal_succ(gm[1])):
+                        tg = attr_chain(n.ast.targets[0]) or norm(n.ast.targets[0])
+                        rhs = {attr_chain(x) for x in ast.walk(n.ast.value) if isinstance(x, (ast.Name, ast.Attribute))}
+                        if (tg.startswith("clientHello1") or tg.startswith("old_ext")) and \
+                                (rhs & vs or rhs & {"%s.%s" % (v, f) for v in vs}):
+                            # the variable must still be bound to THIS extension (names are reused)
+                            mine = {d.id for d, v in defs}
+                            used = [v for v in vs if v in rhs or ("%s.%s" % (v, f)) in rhs]
+                            if any({r.id for r in reaching_defs(g, n, v)} & mine for v in used):
+                                over.append(n)
+                if over:
+                    seen2 = g.reach(g.normal_succ(gm[1]), cut=cut)
+                    ok = not any(o.id in seen2 for o in over)
+            if ok:
+                facts.add((typ, f))
+    return facts
+
+
+def rule_nullfield(ctx):
+    R = "C08.NULLFIELD"
+    from ..query import truthy_edges
+    regs = c15._registries(ctx)
+    nullable = _nullable_fields(ctx)
+    ctx.info["nullable_extension_fields"] = {k: sorted(v) for k, v in sorted(nullable.items())}
+    ctx.require(len(nullable) >= 12, "C08.NULLFIELD: nullable payload fields of only %d extension classes found" % len(nullable))
+    est = {r: _established(ctx, r, nullable, regs) for r in ("server", "client")}
+    est13 = {r: _established(ctx, r, nullable, regs, assume_tls13=True) for r in ("server", "client")}
+    ctx.info["facts_established_by_hello_sanity_checks"] = {r: sorted("%s.%s" % (t.split(".")[-1], f) for t, f in v)
+                                                            for r, v in est13.items()}
+    n_uses = 0
+    for fi in ctx.index.all_functions():
+        if fi.module.name not in ("tlsconnection", "tlsrecordlayer") or fi.cls is None:
+            continue
+        role = "server" if re.match(r"_(server|handshakeServer)", fi.name) or fi.name in ("_handle_srv_pha",) else \
+            ("client" if re.match(r"_(client|handshakeClient)", fi.name) or fi.name == "_handle_pha" else None)
+        if role is None:
+            continue
+        g = ctx.an.cfg(fi)
+        parents = {}
+        for x in ast.walk(fi.node):
+            for c in ast.iter_child_nodes(x):
+                parents[c] = x
+        producer = PRODUCERS[role][0]
+        for (msg, typ), defs in _ext_vars(fi, g, RECEIVED[role]).items():
+            cname = _ext_class_for(ctx, regs, typ, server_msg=(role == "client"))
+            if cname is None or cname not in nullable:
+                continue
+            for f in sorted(nullable[cname]):
+                chains = {"%s.%s" % (v, f) for d, v in defs}
+                cut = set()
+                for ch in chains:
+                    cut |= truthy_edges(g, ch)
+                for d, v in defs:
+                    cut |= _cond_truthy_edges(g, v, f)
+                for d, v in defs:
+                    chain = "%s.%s" % (v, f)
+                    uses = []
+                    for u in g.nodes:
+                        if u.ast is None or u is d or u.expr is None:
+                            continue
+                        for x in ast.walk(u.expr):
+                            if isinstance(x, ast.Attribute) and attr_chain(x) == chain and isinstance(x.ctx, ast.Load) \
+                                    and _none_unsafe(parents, x):
+                                uses.append((u, x))
+                    if not uses:
+                        continue
+                    # paths start where the message was received (its last binding), not at the
+                    # variable: a sanity gate before `v = msg.getExtension(..)` on another variable bound
+                    # to the same extension counts.  Paths on which the extension is absent are cut.
+                    from ..query import falsy_edges
+                    cut2 = set(cut)
+                    for d2, v2 in defs:
+                        cut2 |= falsy_edges(g, v2)
+                    msgdefs = [n for n in g.nodes if n.kind == "stmt" and isinstance(n.ast, ast.Assign)
+                               and any(attr_chain(t) == msg for t in n.ast.targets)]
+                    seen = {}
+                    if fi.name == producer:
+                        # uses inside a block that only runs once TLS 1.3 was selected: the sanity
+                        # checks of the TLS 1.3 branch have run
+                        cut13 = set(cut2)
+                        for t in g.nodes:
+                            if t.kind == "test" and "(3, 4) in ver_ext.versions" in norm(t.expr):
+                                cut13.add((t.id, "F"))
+                    else:
+                        cut13 = cut2
+                    if msgdefs:
+                        for m in msgdefs:      # each binding of the message is its own epoch
+                            sm = g.reach(g.normal_succ(m), blocked=[o for o in msgdefs if o is not m], cut=cut2)
+                            sm13 = g.reach(g.normal_succ(m), blocked=[o for o in msgdefs if o is not m], cut=cut13)
+                            for k_ in list(sm):
+                                nd = g.nodes[k_]
+                                if k_ not in sm13 and _under_tls13_test(fi.node, nd.ast):
+                                    del sm[k_]
+                            for k_, v_ in sm.items():
+                                seen.setdefault(k_, v_)
+                    else:
+                        seen = g.reach([g.entry], cut=cut2)
+                    for u, x in uses:
+                        n_uses += 1
+                        what = "%s %s #%d" % (fi.short, chain, u.line)
+                        facts = est13[role] if "TLS13" in fi.name else est[role]
+                        if fi.name != producer and (typ, f) in facts:
+                            ctx.ok(R, what + " (established by %s)" % producer)
+                            continue
+                        if (fi.name, typ, f) in NULLFIELD_ASSUMED:
+                            ctx.exempt(R, what, NULLFIELD_ASSUMED[(fi.name, typ, f)])
+                            continue
+                        bad = u.id in seen and not _guarded_in_expr(u.expr, x, chain)
+                        ctx.check(R, not bad, fi.qname, "%s used as a collection/value (%s)" % (chain, norm(u.ast)[:50]),
+                                  "%s (field of %s, None when the peer sends the %s extension with an empty payload) is "
+                                  "iterated/indexed/dereferenced without a preceding test that it is not None: the peer "
+                                  "can make the handshake die with TypeError/AttributeError instead of an alert"
+                                  % (chain, cname, typ.split(".")[-1]), fi.loc(u.ast),
+                                  path=None, what=what)
+    ctx.require(n_uses >= 25, "C08.NULLFIELD: %d None-unsafe uses of nullable extension fields examined, floor 25" % n_uses)
+    ctx.info["nullfield_uses"] = n_uses
+
+
+_U13 = {}
+
+
+def _under_tls13_test(fn, stmt):
+    """is `stmt` lexically inside an `if` whose test requires the negotiated version to be TLS 1.3?"""
+    if stmt is None:
+        return False
+    key = id(fn)
+    if key not in _U13:
+        ids = set()
+        for n in ast.walk(fn):
+            if isinstance(n, ast.If) and re.search(r"version > \(3, 3\)|version >= \(3, 4\)", norm(n.test)):
+                for b in n.body:
+                    for x in ast.walk(b):
+                        ids.add(id(x))
+        _U13[key] = ids
+    return id(stmt) in _U13[key]
+
+
+def _none_unsafe(parents, x):
+    p = parents.get(x)
+    if isinstance(p, (ast.For, ast.comprehension)) and getattr(p, "iter", None) is x:
+        return True
+    if isinstance(p, ast.Compare) and x in p.comparators and any(isinstance(o, (ast.In, ast.NotIn)) for o in p.ops):
+        return True
+    if isinstance(p, ast.Subscript) and p.value is x:
+        return True
+    if isinstance(p, ast.Attribute) and p.value is x:
+        return True
+    if isinstance(p, ast.Call) and x in p.args and call_name(p) not in ("bool", "str", "repr", "isinstance"):
+        return True
+    if isinstance(p, ast.Compare) and p.left is x and any(isinstance(o, (ast.Lt, ast.LtE, ast.Gt, ast.GtE)) for o in p.ops):
+        return True
+    if isinstance(p, ast.BinOp):
+        return True
+    return False
+
+
+def _guarded_in_expr(expr, node, chain):
+    """`V.f and ... V.f[..]` / `not V.f or ...`: the use is short-circuit guarded in its own expression."""
+    for b in ast.walk(expr):
+        if isinstance(b, ast.BoolOp):
+            vals = b.values
+            for i, v in enumerate(vals):
+                if any(y is node for y in ast.walk(v)):
+                    for prev in vals[:i]:
+                        if isinstance(b.op, ast.And) and attr_chain(prev) == chain:
+                            return True
+                        if isinstance(b.op, ast.Or) and isinstance(prev, ast.UnaryOp) and isinstance(prev.op, ast.Not) \
+                                and attr_chain(prev.operand) == chain:
+                            return True
+    return False
+
+
+RULES.insert(5, ("C08.NULLFIELD", "quick", rule_nullfield))
